@@ -370,6 +370,10 @@ fn structured(kind: Kind, len: usize, seed: u64) -> Vec<u8> {
         }
         Kind::AlternateServer | Kind::XorMappedAddress if len >= 2 => {
             v[1] = if len == 20 { 2 } else { 1 };
+            if len == 20 && seed % 3 == 0 {
+                // wire bytes that spell a special IPv6 address (IPv4-mapped, loopback, ...)
+                v[4..20].copy_from_slice(&gen::special_v6(seed / 3).to_be_bytes());
+            }
         }
         Kind::PasswordAlgorithm | Kind::PasswordAlgorithms => {
             for (i, b) in v.iter_mut().enumerate() {
